@@ -15,7 +15,7 @@ import subprocess
 import sys
 import xml.etree.ElementTree as ET
 
-VER = "/tmp/scratch/verify"
+VER = os.environ.get("KV_VERIFY_WT", "/tmp/scratch/verify")  # several ingests may run side by side, each in its own worktree
 PY = "/venv/bin/python"
 
 
@@ -61,7 +61,7 @@ def main():
         print(o_mut[-600:])
     tests_ok = None
     if tests:
-        junit = "/tmp/scratch/verify_junit.xml"
+        junit = VER + "_junit.xml"
         rc_t, o_t = sh(f"{PY} -m pytest -q -p no:cacheprovider -n 8 --timeout=900 --junitxml={junit} " + " ".join(tests), cwd=VER, env=env)
         base = set(json.load(open("/root/.vp/BASELINE.json"))["stable_pass"])
         failed = []
@@ -77,7 +77,7 @@ def main():
     verdicts = {}
     for c in man["checks"]:
         pid = c["property_id"]
-        rc_k, o_k = sh(f"./check {pid} --root {VER} --evidence-dir /tmp/scratch/ev_seed", cwd="/verif")
+        rc_k, o_k = sh(f"./check {pid} --root {VER} --evidence-dir {VER}_ev", cwd="/verif")
         verdicts[pid] = rc_k
     res["check_exit_codes"] = verdicts
     caught = [p for p, r in verdicts.items() if r == 1]
